@@ -38,6 +38,14 @@ structure InvAt (t : Nat) (s : Store) : Prop where
   inter : ∀ b, s .intCrt = some b → ∃ i r ra rra j, b = .cert i r ra ∧
             s .rootCrt = some (.cert r r rra) ∧ s .intKey = some (.key j) ∧ (j = i ∨ ra ≤ t)
 
+instance decMonotone : (t : Nat) → (evs : List Event) → Decidable (Monotone t evs)
+  | _, [] => isTrue trivial
+  | t, e :: es =>
+    match Nat.decLe t e.cfg.now, decMonotone e.cfg.now es with
+    | isTrue h1, isTrue h2 => isTrue ⟨h1, h2⟩
+    | isFalse h1, _ => isFalse (fun h => h1 h.1)
+    | _, isFalse h2 => isFalse (fun h => h2 h.2)
+
 /-! ### autosave -/
 
 /-- the autosave file does not exist yet, or is byte for byte one of the configs in `A` -/
